@@ -614,6 +614,29 @@ def b_validator_table(S):
     return out
 
 
+def b_validate_step(S):
+    """`Validation._validate`: the per-(row, validator) decision; what the validator answers and what its fix returns are parameters"""
+    C = {
+        "validator.LINESTRING_ONLY": "ls_only",
+        "isinstance(geom, LineString)": "is_ls",
+        "geom.is_empty": "is_empty",
+        "isinstance(geom, MultiLineString)": "is_mls",
+        "validator.validation_method(geom=geom, **kwargs)": "valid",
+        "validator.fix_method(geom=geom, **kwargs)": "fix",
+        "validator.ERROR": "err",
+        "MAJOR_ERRORS": "major_errors",
+    }
+    T = {"validator.LINESTRING_ONLY": "Bool", "isinstance(geom, LineString)": "Bool", "geom.is_empty": "Bool", "isinstance(geom, MultiLineString)": "Bool",
+         "validator.validation_method(geom=geom, **kwargs)": "Bool", "validator.fix_method(geom=geom, **kwargs)": "Option G", "validator.ERROR": "String",
+         "MAJOR_ERRORS": "List String", "ignore_geom": "Bool", "fixed": "Option G"}
+    return translate_function(
+        S[TVAL], "Validation._validate", "validate_step",
+        {"geom": "G", "current_errors": "List String", "allow_fix": "Bool"}, "G × List String × Bool", C, types=T,
+        extra_params=[("{G}", "Type"), ("ls_only", "Bool"), ("is_ls", "Bool"), ("is_empty", "Bool"), ("is_mls", "Bool"), ("valid", "Bool"), ("fix", "Option G"),
+                      ("err", "String"), ("major_errors", "List String")],
+        slice_from="ignore_geom = False", default_num="Nat", join="tuple")
+
+
 def b_validation_defaults(S):
     tree = ast.parse(S[TVAL])
     cls = find_func(tree, "Validation")
@@ -895,6 +918,7 @@ ITEMS: List[Item] = [
     Item("CalcBins", AZIMUTH, ["C15"], b_calc_bins),
     Item("JunctionShift", GENERAL, ["C02", "C16"], b_junction_shift),
     Item("ValidatorTable", TVALS, ["C09", "C13", "C02"], b_validator_table, extra_modules=[TVAL]),
+    Item("ValidateStep", TVAL, ["C09", "C13"], b_validate_step),
     Item("ValidationDefaults", TVAL, ["C10", "C03", "C16"], b_validation_defaults),
     Item("CacheDecorated", GENERAL, ["C17"], b_cache_decorated, extra_modules=[m for m in ALL_MODULES if m != GENERAL]),
     Item("Grid", GRID, ["C18"], b_grid),
